@@ -208,10 +208,10 @@ theorem handlePendingTasks_g3 {j0 : JobObj} {d : PIndex} {P : List PodObj} {N : 
     split
     · exact some_g3 hg hok
     · generalize hr : List.foldl _ (s, ([] : List Task)) tasks = r
-      have hinv : ∀ x ∈ r.2, x ∈ tasks ∧ x.ref.finishTimestamp.isSome = false := by
+      have hinv : ∀ x ∈ r.2, x ∈ tasks ∧ (pendRef rj x).finishTimestamp.isSome = false := by
         intro x hx
         rw [← hr] at hx
-        refine Or.resolve_left (foldl_needDelete (fun t => t.ref.finishTimestamp.isSome = false) _ ?_ tasks (s, []) x hx)
+        refine Or.resolve_left (foldl_needDelete (fun t => (pendRef rj t).finishTimestamp.isSome = false) _ ?_ tasks (s, []) x hx)
           (by intro h; cases h)
         intro acc t y hy
         (try simp only at hy)
@@ -236,11 +236,20 @@ theorem handlePendingTasks_g3 {j0 : JobObj} {d : PIndex} {P : List PodObj} {N : 
       · generalize deleteTasks s1 needDelete false = r2
         obtain ⟨s2, ok⟩ := r2
         (try simp only)
-        refine ite_some_none_g3 ok (markKilled_g3 rj _ "PendingTimeout" hg hok ?_)
-        intro n hn
+        refine ite_some_none_g3 ok (markKilled_g3_refs rj _ "PendingTimeout" hg hok ?_)
+        intro r0 hr0 hn
         rw [List.contains_iff_mem] at hn
-        obtain ⟨t, ht, rfl⟩ := List.mem_map.mp hn
-        exact ⟨t, (hinv t ht).1, rfl, (hinv t ht).2⟩
+        obtain ⟨t, ht, htn⟩ := List.mem_map.mp hn
+        -- the refs' names are pairwise distinct: the recorded ref the step judged `t` by is `r0`
+        have hfind : findTaskRef rj t.name = some r0 := by
+          unfold findTaskRef
+          have := find_of_nodup_names rj.status.tasks hg.nodup r0 hr0
+          have htn' : t.name = r0.name := htn
+          rw [htn']; exact this
+        have := (hinv t ht).2
+        unfold pendRef at this
+        rw [hfind] at this
+        exact this
 
 theorem handleKillJob_g3 {j0 : JobObj} {d : PIndex} {P : List PodObj} {N : List String} (s : Sys) (jo : JobObj) (rj : Job) (tasks : List Task)
     (hg : Good j0 d rj) (hok : RefsOK P N tasks rj.status.tasks) :
